@@ -1,40 +1,65 @@
 import Ibx.Gen.Retention
 import Ibx.Model.Retention
 /-
-  T1 tie for C12: the shape of `DoScan` / `Start` that Ibx/Model/Retention.lean transcribes, as regenerated from
-  pkg/storage/retention.go on every run (Ibx/Gen/Retention.lean).  If the source changes one of them these
-  obligations stop checking.
+  T1 tie for C12: the shape of `DoScan` / `Start` / `Join` that Ibx/Model/Retention.lean transcribes, as regenerated
+  from pkg/storage/retention.go on every run (Ibx/Gen/Retention.lean).
+
+  Every fact is STRUCTURAL (harness/cmd/extract/retention.go): it is read off go/ast shapes — selectors of exported /
+  standard-library names (`Before`, `Date`, `Mailbox`, `ID`, `RemoveMessage`, `VisitMailboxes`, `time.Now`, `Add`,
+  `time.After`, `time.Since`, `time.Minute`, `Done`, `close`), operators, literals, path conditions and data-flow
+  identity — and not off the spelling of locals, receivers, unexported fields / helpers, labels or log text.
+  Unexported helpers are followed as if inlined; `if c {A} else {B}`, `if !c {B; continue}; A` and a tagless
+  `switch` give the same path conditions.  Unexported fields are named by anchors: "the field the constructor
+  initialises from <config>.RetentionPeriod / RetentionSleep", "the field VisitMailboxes is called on", "the
+  channel field Join receives from".  A shape that is not recognised yields "unknown" / false, which nothing
+  below accepts.  If the source changes one of these facts the obligation stops checking.
 -/
 namespace Ibx.Tie.Retention
 open Ibx.Gen.Retention
 
-/-- `expired`: a message is removed iff `msg.Date().Before(cutoff)` (strictly before) -/
-theorem removeGuard_tie : removeGuard = some "msg.Date().Before(cutoff)" := by decide
-/-- `cutoffOf`: cutoff = now + (-1) * period -/
-theorem cutoff_tie : cutoffExpr = some "time.Now().Add(-1 * rs.retentionPeriod)" := by decide
-/-- `sweep`: one loop over the snapshot handed to the callback -/
-theorem rangeLoop_tie : rangeLoop = some "for _, msg := range messages" := by decide
-/-- removal is by (mailbox, id) of the snapshot entry, through the store's RemoveMessage; exactly one call site,
-    none for messages that are not before the cutoff -/
-theorem removeCall_tie : removeCall = some "rs.ds.RemoveMessage(msg.Mailbox(), msg.ID())" ∧ removeCalls = 1 ∧ removeInElse = false := by decide
-/-- a RemoveMessage error is only logged: the error branch holds no statement but logging … -/
-theorem removeErr_tie : removeErrBranch = "err != nil => []" := by decide
-/-- … and the callback says `false` only in the ctx.Done case of its select; otherwise `true` -/
-theorem callbackReturns_tie : callbackReturns = ["false@<-ctx.Done()", "true@-"] := by decide
-/-- `check`: DoScan's only wait is one select between ctx.Done (abort) and the retentionSleep timer -/
-theorem doScanSelects_tie : doScanSelects = [(true, "return false", "<-time.After(rs.retentionSleep)")] ∧ doScanBareBlocking = [] := by decide
-/-- DoScan hands back VisitMailboxes' error -/
-theorem visitErr_tie : visitCall = "err := rs.ds.VisitMailboxes" ∧ visitErrCheck = some "if err != nil { return err }" := by decide
-/-- `start`: `retentionPeriod <= 0` closes the shutdown channel and returns before the loop -/
-theorem disable_tie : disableCond = some "rs.retentionPeriod <= 0" ∧ disableBody = "close(rs.retentionShutdown); return" := by decide
-/-- `loop`: wait (only if less than a minute since the last kick-off) in a select with ctx.Done, scan once, poll ctx.Done -/
-theorem loopShape_tie : loopShape = ["since := time.Since(start)", "if since < time.Minute", "start = time.Now()", "scan", "select"] ∧
-    startScanCalls = 1 ∧ throttleCond = "since < time.Minute" := by decide
-/-- every blocking wait of Start is a select with a ctx.Done case that leaves the loop -/
-theorem startSelects_tie : startSelects = [(true, "break retentionLoop", "<-time.After(dur)"), (true, "break retentionLoop", "default")] ∧
-    startBareBlocking = [] := by decide
-/-- all selects of both functions have the ctx.Done case (the form the statement of C12 uses) -/
-theorem every_wait_has_done : (doScanSelects ++ startSelects).all (·.1) = true := by decide
+/-- the four functions were found and their control flow is of the kind the path-condition walker understands -/
+theorem flow_tie : flowRecognised = true := by decide
+/-- `expired`: inside the loop body the RemoveMessage call is reached under exactly one condition,
+    `<loop message>.Date().Before(<cutoff>)` (strictly before; `cutoff.After(date)` is the same thing) -/
+theorem removeGuard_tie : removeGuard = "dateBeforeCutoff" := by decide
+/-- `cutoffOf`: that cutoff is `time.Now().Add(-1 * period)` (or `period * -1`, `-period`), evaluated once per scan
+    outside the visitor callback, `period` being the field initialised from the configured RetentionPeriod -/
+theorem cutoff_tie : cutoffShape = "nowMinusPeriod" ∧ cutoffAtScanLevel = true ∧ cutoffIsConfigPeriod = true := by decide
+/-- `sweep`: one `range` loop over the snapshot handed to the callback (its own parameter), entered unconditionally,
+    and nothing inside leaves it early (no return / break / goto): every message of the snapshot is looked at -/
+theorem rangeLoop_tie : sweepLoop = "rangeOverSnapshot" ∧ sweepLoopExits = 0 := by decide
+/-- removal is by (Mailbox(), ID()) of the loop's message, through RemoveMessage of the very store field that
+    VisitMailboxes is called on; exactly one call site in DoScan (helpers followed) — hence none on the
+    not-expired path, whose condition is the negation of the guard above -/
+theorem removeCall_tie : removeArgs = "mailboxAndIdOfLoopMessage" ∧ removeOnVisitedStore = true ∧ removeCalls = 1 := by decide
+/-- a RemoveMessage error is only logged: under `err != nil` nothing is reachable but logging chains (and a plain
+    `continue`): no return, no break … -/
+theorem removeErr_tie : removeErrEffect = "logOnly" := by decide
+/-- … and the callback says `false` only directly in the `<-ctx.Done()` case of a select, and `true` only
+    unconditionally (so the select is on every path: no early `return true` that would skip the cancellation point) -/
+theorem callbackReturns_tie : callbackReturns = ["false@ctxDoneCase", "true@plain"] := by decide
+/-- `check`: DoScan's only blocking operation is one select between ctx.Done (whose body, logging aside, is
+    `return false`) and a `time.After` timer on the field initialised from the configured RetentionSleep -/
+theorem doScanSelects_tie : doScanWaits = [("select", "returnFalse", ["timeAfter:sleepField"])] := by decide
+/-- DoScan calls VisitMailboxes once and hands back its error -/
+theorem visitErr_tie : visitCalls = 1 ∧ visitErrPropagated = true := by decide
+/-- `start`: `period <= 0` (the field initialised from the configured RetentionPeriod — the same one the cutoff
+    uses) closes the channel Join waits on and returns before the loop -/
+theorem disable_tie : disableCond = "leZero" ∧ disableIsConfigPeriod = true ∧ disablePath = "closeJoinChanThenReturn" := by decide
+/-- `loop`: one unconditional infinite loop whose turn is: measure the time since the last kick-off, wait — only if
+    that is less than a minute — in a select, stamp the kick-off, scan once with the ctx parameter (an error is only
+    logged), poll ctx.Done in a select with default -/
+theorem loopShape_tie : loopOrder = ["since", "throttleWait", "stamp", "scan", "poll"] ∧ startLoops = 1 ∧ loopInfinite = true ∧
+    startScanCalls = 1 ∧ throttleGuard = "sinceStampLtMinute" ∧ scanErrEffect = "logOnly" := by decide
+/-- every blocking wait of Start is a select with a ctx.Done case that breaks out of the loop; the first one's
+    timer is `time.Minute - time.Since(..)`, the second one has a default -/
+theorem startSelects_tie : startWaits = [("select", "breakLoop", ["timeAfter:minuteMinusSince"]), ("select", "breakLoop", ["default"])] := by decide
+/-- after the loop Start only logs and closes the channel Join waits on; Join's only blocking operation is the
+    receive from that field; Start has the two closes (disabled path, end of loop) and no other -/
+theorem join_tie : afterLoop = "closeJoinChan" ∧ joinWaits = ["recvField"] ∧ closesOfJoinChan = 2 := by decide
+/-- all blocking operations of both functions are selects with a ctx.Done case that leaves (the form the statement
+    of C12 uses) -/
+theorem every_wait_has_done : (doScanWaits ++ startWaits).all (fun w => w.1 == "select" && (w.2.1 == "returnFalse" || w.2.1 == "breakLoop")) = true := by decide
 
 /-- the model's reading of the two expressions -/
 example : Ibx.Model.Retention.cutoffOf 1000 300 = 700 := by decide
